@@ -42,12 +42,15 @@ func (c *committer) Run(_ int, task task, _ chan<- struct{}) error {
 	)
 
 	byteSize := uint64(task.batch.Size())
+	// The batch is done with whether or not the write succeeded: hand its slot back, or an
+	// ingestor waiting for a fresh batch blocks forever after a failed write.
+	defer c.batchSemaphore.Put()
+
 	if err := task.batch.Write(); err != nil {
 		return err
 	}
 
 	c.counter.log(byteSize, task.totalTxCount, task.totalBlockCount)
-	c.batchSemaphore.Put()
 	return nil
 }
 
